@@ -477,7 +477,10 @@ impl EngineInterface for VerifEngine {
         Ok(p.unwrap_or_else(|| validator::Payload(auto.into_bytes())))
     }
     async fn get_state(&self, _ctx: &ctx::Ctx) -> ctx::Result<validator::ReplicaState> {
-        Ok(self.0.state.lock().unwrap().clone())
+        // a storage backend keeps BYTES (node/tools' RocksDB store does): what a restarted replica reads went through the real encoding
+        let st = self.0.state.lock().unwrap().clone();
+        let bytes = zksync_protobuf::encode(&st);
+        zksync_protobuf::decode(&bytes).map_err(|e| ctx::Error::Internal(anyhow::format_err!("the stored replica state does not decode: {e:#}")))
     }
     async fn set_state(&self, _ctx: &ctx::Ctx, state: &validator::ReplicaState) -> ctx::Result<()> {
         let mut c = self.0.ctl.lock().unwrap();
